@@ -35,3 +35,13 @@ Theorem C12_backspaces_one_per_key : forall lo hi ks,
   fst (seq_backspaces lo hi ks 0) = flat_map (fun _ => [SORawPress 14; SORawRelease 14]) ks.
 Proof. exact backspaces_one_per_key. Qed.
 Print Assumptions C12_backspaces_one_per_key.
+
+(* a whole typed sequence through the press logic (`type_keys`: the keys one after the other, no modifier held, stopping at the
+   first reported match): in a prefix-free table of plain-key sequences, typing a defined sequence reports nothing before its
+   last key and then exactly its own virtual key, once, with nothing left to type *)
+From KV Require Import Proofs.C12Typing.
+Theorem C12_plain_sequence_fires_once : forall t mc ks v mode timeout,
+  prefix_free t -> plain_trie t -> In (ks, v) t -> ks <> [] -> Forall plain_key ks ->
+  exists s', type_keys t mc (sq_activate mode timeout) ks = Ok (s', Some (v, ks, [])) /\ sq_seq s' = ks.
+Proof. exact plain_sequence_fires_once. Qed.
+Print Assumptions C12_plain_sequence_fires_once.
